@@ -77,3 +77,23 @@ Proof. vm_compute; reflexivity. Qed.
 Example C01_ex4 : get_slots (Some "[1,2"%string) = [] /\ get_slots (Some "[1.5]"%string) = []
   /\ get_slots (Some "[2147483648]"%string) = [] /\ get_slots (Some " [ 3 , null ] "%string) = [0; 3].
 Proof. vm_compute. repeat split. Qed.
+
+(* (8) the controller side: for every API state, informer cache and fault oracle, every pod the reconcile
+   creates is named after a member of the desired set of the cached StatefulSet — it creates pods at those
+   ordinals and nowhere else (that the ordinal is vacant is C04). *)
+From ASTS Require Import Names World Reconcile PlanProofs ReconcileProofs.
+Theorem C01_controller_creates_only_desired :
+  forall hashes api cache faults o log w' n rv t e,
+    reconcile hashes api cache faults = (o, log, w') ->
+    (forall q, In q (w_pods cache) -> isCreated q = true) ->
+    In (CCreatePod n rv t, e) log ->
+    exists s r i, w_set cache = Some s /\ s_replicas s = Some r
+                  /\ In i (pod_ordinals r (get_slots (s_slots s))) /\ n = pod_name (s_name s) i.
+Proof.
+  intros hashes api cache faults o log w' n rv t e Hr Hc Hin.
+  destruct (reconcile_create_justified _ _ _ _ _ _ _ _ _ _ _ Hr Hc Hin)
+    as (s & cur & upd & coll & claimed & po & r & cnt & slots & i & Hv & _ & H1 & _ & H3 & Hn & _).
+  exists s, r, i. destruct Hv as (Hs & _). split; [exact Hs|]. split; [exact H1|]. split; [exact H3|].
+  rewrite Hn. unfold new_versioned_pod. destruct (use_current s i); reflexivity.
+Qed.
+Print Assumptions C01_controller_creates_only_desired.
